@@ -14,7 +14,8 @@ of a Compound is modelled as a dense `.dict` node of `Tree.lean`, and this file 
   list of 0–3 fields is completed by generated `year` / `month` / `day` fields;
 * `Explode` / `compoundSet` — `Compound.set`: what `explode` does is a PARAMETER restricted to the
   documented contract ("assign values to children": `self[field.name].set(v)` for fields in order, or
-  an exception escaping before anything was assigned);  `dateExplode` is `DateYYYYMMDD.explode`;
+  an exception escaping before anything was assigned, or — the wider contract — after a PREFIX of the
+  fields was assigned: `assignThenRaise`);  `dateExplode` is `DateYYYYMMDD.explode`;
 * `compoundStep` — one dict-protocol call on a Compound: `set` / `set_default` from here, everything
   else is `mapStep`.
 -/
@@ -48,6 +49,11 @@ def preparedClass (info : SInfo) (dflt : Raw) (supplied : List Schema) (cids : N
 inductive Explode
   | assign (vs : List Raw)   -- `self[field_i.name].set(vs_i)` for the first `vs.length` fields, in field order
   | raises                   -- an exception escapes `explode` before any child was touched
+  | assignThenRaise (vs : List Raw)
+      -- the WIDER contract (n3): `self[field_i.name].set(vs_i)` for the first `vs.length` fields completed, then an
+      -- exception escapes `explode` — a member whose own `set()` raises (a `Constrained` whose `valid_value` raises:
+      -- that member keeps its state), in the `try` loop or in the `set(None)` fallback loop of
+      -- `DateYYYYMMDD.explode`; `Compound.set` swallows it and returns False, the prefix STAYS set
   deriving Repr, Inhabited
 
 /-- the `for … in zip(…, self.field_schema): self[child_schema.name].set(v)` loop -/
@@ -72,6 +78,11 @@ def compoundSet (ex : Raw → Explode) (n : Node) (raw : Raw) (next : Nat) : Set
     | .ok () => ⟨n.withKids r.1, r.2.1, .ok true⟩
     | .error .unsupported => ⟨n.withKids r.1, r.2.1, .error .unsupported⟩
     | .error _ => ⟨n.withKids r.1, r.2.1, .ok false⟩
+  | .assignThenRaise vs =>
+    let r := assignKids n.sch.subs vs n.kids next
+    match r.2.2 with
+    | .error .unsupported => ⟨n.withKids r.1, r.2.1, .error .unsupported⟩
+    | _ => ⟨n.withKids r.1, r.2.1, .ok false⟩
 
 /-! ## `DateYYYYMMDD.explode` -/
 
